@@ -172,6 +172,22 @@ func genC07(tier string) []Scenario {
 			}
 		}
 	}
+	// fine-grained: preemptions between the library's own synchronisation steps (claiming an item,
+	// storing its result), not only at callbacks
+	for _, c := range []int{2, 3} {
+		for n := 2; n <= 3; n++ {
+			if c == 3 && n == 3 && !th {
+				continue
+			}
+			bd := 2
+			if th && n+c <= 4 {
+				bd = unbounded
+			}
+			sc := batchScn{name: fmt.Sprintf("per-item-fine n=%d c=%d budget=1", n, c), n: n, c: c, budget: 1, shape: shResults, yield: true,
+				execMenu: okOrErrMenu, fbMenu: fbOkOrErr, postMenu: postX, bound: bd, chkPerItem: true, chkPositional: true}
+			out = append(out, sc.scenario())
+		}
+	}
 	// errors that wrap a context error (the batch context is alive) and nil-valued successes are
 	// ordinary per-item outcomes; a cancellation mid-batch never rewrites an item that had finished
 	for _, c := range []int{0, 1, 2} {
@@ -263,6 +279,22 @@ func genC08(tier string) []Scenario {
 				}
 			}
 		}
+	}
+	// more workers than the quick tier's default, a couple of items beyond c, one preemption:
+	// windows that only open while the pool is still ramping up / while a worker is re-used
+	// (item 0 finishes at once and its worker comes back for more while the others are held in
+	// one-second executions: maximal overlap with few schedules)
+	for _, c := range []int{2, 3, 4} {
+		if c == 4 && !th {
+			continue
+		}
+		b := 1
+		if th && c < 4 {
+			b = 2
+		}
+		sc := batchScn{name: fmt.Sprintf("limit-rampup n=%d c=%d", c+2, c), n: c + 2, c: c, budget: 1, shape: shResults, yield: true, execMenu: okMenu, postMenu: postX, bound: b, chkLimit: true,
+			execDur: time.Second, fast: []int{0}, stagger: true}
+		out = append(out, sc.scenario())
 	}
 	// slow executions (1 s of virtual time each) with more items than workers + queue: the
 	// submitter stays blocked on a full queue while time passes
@@ -544,12 +576,21 @@ func genC11(tier string) []Scenario {
 			add(batchScn{name: fmt.Sprintf("cancel-with-cause n=2 c=%d stop=%v", c, stop), n: 2, c: c, stop: stop, budget: 1, yield: c > 0, execMenu: okMenu, bound: 1, withCause: true, cancel: cancelSpec{kind: 1, lazy: true}})
 		}
 	}
+	// more items than workers + queue: the submitter itself is blocked while the workers sit in a
+	// one-hour retry wait when the cancellation arrives
+	for _, c := range []int{1, 2} {
+		n := 3*c + 1
+		add(batchScn{name: fmt.Sprintf("cancel-full-queue n=%d c=%d budget=2 wait=1h", n, c), n: n, c: c, budget: 2, wait: time.Hour, execMenu: failFirstMenu, bound: 0, cancel: cancelSpec{kind: 1, lazy: true}})
+		out = append(out, waitScn{kind: -1, w: time.Hour, n: 2, items: n, c: c, cancelJ: 0, d: time.Minute, bound: 0}.scenario())
+	}
 	// cancellation arriving asynchronously DURING a retry wait (short and long waits): no further attempt
 	for _, c := range []int{0, 2} {
 		for _, w := range []time.Duration{500 * time.Microsecond, time.Hour} {
 			for j := 0; j < 2; j++ {
 				out = append(out, waitScn{kind: -1, w: w, n: 2, items: 2, c: c, cancelJ: j, d: w / 2, bound: 1}.scenario())
 			}
+			// attempts that take longer than the wait, cancelled right when one ends
+			out = append(out, waitScn{kind: -1, w: w, n: 3, items: 1, c: c, cancelJ: 0, d: 0, bound: 2, execDur: 2 * w}.scenario())
 		}
 	}
 	return out
